@@ -371,6 +371,16 @@ def stages_3_4(ctx, thorough, hyp, runs, sims, sim_suites):
 
     # 3. spec -> code: everything in one driver process
     res = replay_suites(ctx, "replay", suites)
+    # "revocation-ignored" outcomes (H2 revoked-tag carry, H3 revocation masked by an
+    # in-RRset tag collision): sdns never ACCEPTS the revocation, so the statement's
+    # "a key whose self-signed revocation was accepted is never published again" is not
+    # engaged.  They are real RFC 5011 gaps but not violations of C09 as stated:
+    # reported as observations, never as violations.
+    observed = [v for v in res.get("violations", []) if "/revocation-ignored/" in v.get("key", "")]
+    res["violations"] = [v for v in res.get("violations", []) if "/revocation-ignored/" not in v.get("key", "")]
+    for v in observed:
+        print("OBSERVATION property=C09 (not judged) %s" % v.get("what", "")[:300], flush=True)
+    ctx.cov["observations"] = [v.get("key") for v in observed]
     ctx.take_driver_result(res, "")
     clean_names = [s["name"] for s in suites[:ndirected + len(sims)]]
     viol_by_suite = {}
